@@ -219,6 +219,23 @@ def bounded_transparency(reg, tier, seed):
                 if dst != want_dst or not msggen.same_message(de.deserialize(pkt.data), de.deserialize(h4.serializer.serialize(m))):
                     failures.append({"key": "transparency/bounded", "clause": f"{name} was not forwarded intact to {want_dst}", "input": inp,
                                      "observed": str(dst)})
+        # a region that is announced again while its circuit is open (TeleportFinish / CrossedRegion / EstablishAgentCommunication carry
+        # its address and a seed capability: the same one, or a new one) keeps its circuit: datagrams go on flowing both ways
+        from hippolyzer.lib.base.message.message import Message as _M4, Block as _B4
+        for ridx, seed_url in ((0, "https://test.localhost:4/foo"), (1, "https://test.localhost:4/r0"), (1, "https://test.localhost:4/r0-new"),
+                               (2, "https://test.localhost:4/r9-new"), (0, "https://test.localhost:4/foo-new")):
+            h4.session.register_region(h4.region_addrs[ridx], seed_url=seed_url)
+            for direction in (Direction.OUT, Direction.IN):
+                pid4 += 1
+                m = _M4("CompletePingCheck", _B4("PingID", PingID=pid4 % 256), packet_id=pid4, direction=direction)
+                data, src = h4.datagram(m, ridx)
+                exc, sent = h4.feed(data, src)
+                evals += 1
+                seen.add(("reannounced", ridx, seed_url, str(direction)))
+                if exc is not None or len(sent) != 1:
+                    failures.append({"key": "transparency/bounded", "clause": f"after region {ridx} was announced again (seed {seed_url}) a {direction.name} datagram on "
+                                     f"its open circuit was forwarded {len(sent)} times (exception {exc!r}); expected exactly 1",
+                                     "input": {"region": ridx, "seed": seed_url, "direction": str(direction)}, "observed": repr(exc)})
     finally:
         h4.close()
     # pre-session datagrams: a fresh protocol with no session discards everything but UseCircuitCode
